@@ -1,8 +1,14 @@
 """C08 - real-time clocks wake every task once, on time, in order, and survive
 errors.  E3: every schedule (preemption / lateness bounded) of small driver
-programs over the real SystemClock / TempoClock / AppClock threads."""
+programs over the real SystemClock / TempoClock / AppClock threads.
+
+Scenario sets: scenarios() = the sharp scenarios S1-S11 + audit_scenarios()
+(S8-S20, Sinf2); grammar_scenarios() and grammar2_scenarios() = two systematic
+program families (quick: seed-selected slices).  The interpreter of the
+programs is mc/rtprog.py extended by _run2_class() below."""
 
 import json
+import re
 
 from mc import core
 from mc.engines import progenum
@@ -209,6 +215,331 @@ def scenarios(tier):
                            'X': [['sched', c, 0.5, 'f1']],
                            'Y': [['sched', c, 0.5, 'f2']]},
                 'horizon': 3.0}))
+    out += audit_scenarios(tier)
+    return out
+
+
+CL2 = {'s': ['system'], 't': ['tempo', 2.0], 'u': ['tempo', 1.0]}
+CL3 = {'s': ['system'], 't': ['tempo', 2.0], 'a': ['app']}
+
+
+def _target(kind):
+    """(task name, funcs, routines) of a re-schedulable task of `kind`."""
+    if kind == 'routine':
+        return 'r0', {}, {'r0': [['yield', 0.5], ['yield', 0.5]]}
+    return 'f0', {'f0': {'kind': kind, 'returns': [0.5, None]}}, {}
+
+
+def audit_scenarios(tier):
+    """Scenario families added by the audit (see the comments)."""
+    out = []
+    thorough = tier == 'thorough'
+    for c in ('s', 't', 'a'):
+        cl = clocks_for(c)
+        # S8: ONE task object scheduled again while it is pending (moved
+        # earlier: the head changes under the sleeping clock; moved later:
+        # nothing may fire at the old time; concurrently at the same time);
+        # awakeable / Function object / routine handed to sched() are one
+        # item, a plain function is a new item per call (both must fire)
+        moves = ((1.0, 0.25, 0.25), (0.5, 0.25, 1.0), (0.5, 0, 0.5))
+        for kind, nmoves in (('awakeable', 3),
+                             ('routine', 3 if thorough else 2),
+                             ('funcobj', 3 if thorough else 1),
+                             ('func', 3 if thorough else 1)):
+            for d1, w, d2 in moves[:nmoves]:
+                t, funcs, routines = _target(kind)
+                funcs = dict(funcs)
+                funcs['f1'] = {}
+                xs = ([['sleep', w]] if w else []) + [['sched', c, d2, t]]
+                ms = [['sched', c, d1, t]]
+                if c != 'a' or thorough:
+                    # an unrelated task in between (AppClock: thorough only,
+                    # its tick protocol has many more scheduling points)
+                    ms.append(['sched', c, 0.75, 'f1'])
+                out.append(('S8', {
+                    'clocks': cl, 'funcs': funcs, 'routines': routines,
+                    'actors': {'main': ms, 'X': xs},
+                    'horizon': 5.0}))
+        # S8d: a task re-schedules ANOTHER task object that is due at the
+        # same instant (before / after the re-scheduling task in the queue)
+        for kind in ('awakeable', 'routine'):
+            t, funcs, routines = _target(kind)
+            funcs = dict(funcs)
+            funcs['f1'] = {'does': {'0': [['sched', c, 0.25, t]]}}
+            for ms in ([['sched', c, 0.5, 'f1'], ['sched', c, 0.5, t]],
+                       [['sched', c, 0.5, t], ['sched', c, 0.5, 'f1']]):
+                prog = {'clocks': cl, 'funcs': funcs, 'routines': routines,
+                        'actors': {'main': ms}, 'horizon': 4.0}
+                if c == 'a' and ms[0][3] == 'f1':
+                    # own violation kinds (known finding: AppClock has
+                    # already popped the whole batch that is due)
+                    prog['tag'] = 'app-batch-resched'
+                out.append(('S8d', prog))
+        # S8b: a task schedules ITSELF from inside its awake call and then
+        # returns nothing / a number (which moves it once more)
+        x8b = [('X', [['sched', c, 0.75, 'f1']])] \
+            if (c != 'a' or thorough) else []
+        for kind in ('awakeable', 'funcobj'):
+            for rets in ([None], [0.5, None]):
+                out.append(('S8b', {
+                    'clocks': cl,
+                    'funcs': {'f0': {'kind': kind, 'returns': rets,
+                                     'does': {'0': [['sched', c, 0.25,
+                                                     'f0']]}},
+                              'f1': {}},
+                    'actors': dict([('main', [['sched', c, 0.5, 'f0']])] +
+                                   x8b),
+                    'horizon': 4.0}))
+        for y in (['yield', 0.5], ['yieldv', 'x']):
+            out.append(('S8b', {
+                'clocks': cl, 'funcs': {'f1': {}},
+                'routines': {'r0': [['sched', c, 0.25, 'r0'], y,
+                                    ['yield', 0.5]]},
+                'actors': dict([('main', [['sched', c, 0.5, 'r0']])] + x8b),
+                'horizon': 4.0}))
+        # S12: return values: zero (again at the same time, after the tasks
+        # already tied there), negative, int, not a number
+        for rets in ([0, None], [-0.25, None], [1, None], ['x'],
+                     [0.5, 0, None]):
+            acts = {'main': [['sched', c, 0.5, 'f0'],
+                             ['sched', c, 0.5, 'f1']]}
+            if thorough or (c != 'a' and rets[0] == 0):
+                # a plain thread schedules at the very instant of the wake
+                acts['X'] = [['sleep', 0.5], ['sched', c, 0, 'f2']]
+            out.append(('S12', {
+                'clocks': cl,
+                'funcs': {'f0': {'returns': rets}, 'f1': {}, 'f2': {}},
+                'actors': acts, 'horizon': 4.0}))
+        out.append(('S12', {
+            'clocks': cl, 'funcs': {'f1': {}},
+            'routines': {'r0': [['yield', 0], ['yield', -0.25],
+                                ['yield', 1]]},
+            'actors': {'main': [['sched', c, 0.5, 'r0'],
+                                ['sched', c, 0.5, 'f1']]},
+            'horizon': 4.0}))
+        # Sinf2: a task returns / a routine yields float('inf') ("never
+        # again", as sched(inf, ...) means): the tasks scheduled afterwards
+        # with a finite delay are still awakened
+        out.append(('Sinf2', {
+            'clocks': cl, 'funcs': {'f0': {'returns': [INF]}, 'f1': {}},
+            'actors': {'main': [['sched', c, 0.25, 'f0'], ['sleep', 1.0],
+                                ['sched', c, 0.5, 'f1']]},
+            'horizon': 3.0}))
+        out.append(('Sinf2', {
+            'clocks': cl, 'funcs': {'f1': {}},
+            'routines': {'r0': [['yield', INF]]},
+            'actors': {'main': [['sched', c, 0.25, 'r0'],
+                                ['sched', c, 0.5, 'f1']]},
+            'horizon': 3.0}))
+        if c != 'a':
+            # sched_abs(inf, ...): never awakened, nothing else disturbed
+            out.append(('Sinf2', {
+                'clocks': cl, 'funcs': {'f0': {}, 'f1': {}},
+                'actors': {'main': [['sched_abs', c, INF, 'f0'],
+                                    ['sched', c, 0.5, 'f1']]},
+                'horizon': 3.0}))
+        # S13: negative delay / absolute time in the past: due at once,
+        # ahead of everything pending
+        xops = [['sched', c, -0.5, 'f1']]
+        if c != 'a':
+            xops.append(['sched_abs', c, 0.0, 'f1'])
+        for xo in xops:
+            out.append(('S13', {
+                'clocks': cl, 'funcs': {'f0': {}, 'f1': {}},
+                'actors': {'main': [['sched', c, 0.5, 'f0']],
+                           'X': [['sleep', 0.25], xo]},
+                'horizon': 3.0}))
+        # S18: the other public entry points that schedule on a clock:
+        # clock.play(task, quant), defer(func, delta, clock)
+        cla = dict(cl)
+        cla['a'] = ['app']
+        out.append(('S18', {
+            'clocks': cl, 'funcs': {'f0': {}},
+            'routines': {'r0': [['yield', 0.5]]},
+            'actors': {'main': [['cplay', c, 'f0']],
+                       'X': [['sleep', 0.25], ['cplay', c, 'r0', 0]]},
+            'horizon': 3.0}))
+        out.append(('S18', {
+            'clocks': cla,
+            'funcs': {'f1': {'kind': 'thunk', 'clock': c},
+                      'f2': {'kind': 'thunk', 'clock': 'a'},
+                      'f3': {'kind': 'thunk', 'clock': c}},
+            'actors': {'main': [['defer', c, 0.5, 'f1'],
+                                ['defer', None, None, 'f2']],
+                       'X': [['defer', c, None, 'f3']]},
+            'horizon': 3.0}))
+        # S20: a routine that raises; every subset position of raising tasks
+        out.append(('S20', {
+            'clocks': cl, 'funcs': {'f0': {}, 'f1': {}},
+            'routines': {'r0': [['yield', 0.25], ['raise']]},
+            'actors': {'main': [['play', 'r0', c, 0],
+                                ['sched', c, 0.25, 'f0'],
+                                ['sched', c, 0.5, 'f1']]},
+            'horizon': 3.0}))
+        for sub, kind in (((0,), 'func'), ((2,), 'func'), ((0, 2), 'func'),
+                          ((0, 1, 2), 'awakeable')):
+            funcs = {}
+            for i in range(3):
+                funcs[f'f{i}'] = {'kind': kind}
+                if i in sub:
+                    funcs[f'f{i}']['raises'] = [0]
+                elif i == 2:
+                    funcs[f'f{i}']['returns'] = [0.5, None]
+            out.append(('S20', {
+                'clocks': cl, 'funcs': funcs,
+                'actors': {'main': [['sched', c, 0.5, 'f0'],
+                                    ['sched', c, 0.5, 'f1'],
+                                    ['sched', c, 0.5, 'f2'],
+                                    ['sleep', 1.5],
+                                    ['sched', c, 0.5, 'f1']]},
+                'horizon': 4.0}))
+    # S8c: one object pending on two clocks at once: each clock awakens it
+    for c1, c2 in (('s', 't'), ('s', 'a'), ('t', 'a')):
+        cl = dict(clocks_for(c1))
+        cl.update(clocks_for(c2))
+        d1 = 1.0 if c1 == 't' else 0.5
+        d2 = 1.5 if c2 == 't' else 0.75
+        for kind in ('awakeable', 'routine'):
+            if kind == 'routine':
+                t, funcs = 'r0', {}
+                routines = {'r0': [['yield', 1.0], ['yield', 1.0]]}
+            else:
+                t, funcs, routines = 'f0', {'f0': {'kind': kind}}, {}
+            funcs['f1'] = {}
+            out.append(('S8c', {
+                'clocks': cl, 'funcs': funcs, 'routines': routines,
+                'actors': {'main': [['sched', c1, d1, t],
+                                    ['sched', c2, d2, t],
+                                    ['sched', c2, d2, 'f1']]},
+                'horizon': 5.0}))
+    # S14: two TempoClocks: what is done to one leaves the other alone
+    for xs in ([['tempo', 't', 4.0]], [['stopclock', 't']],
+               [['clear', 'u']], [['sched', 'u', 0.25, 'f2']],
+               [['stoppub', 't']], [['etempo', 'u', 4.0]]):
+        out.append(('S14', {
+            'clocks': CL2, 'funcs': {'f0': {}, 'f1': {}, 'f2': {}},
+            'actors': {'main': [['sched', 't', 2.0, 'f0'],
+                                ['sched', 'u', 1.0, 'f1']],
+                       'X': [['sleep', 0.25]] + xs},
+            'horizon': 4.0}))
+    # S15: SystemClock, AppClock and a TempoClock with tasks pending:
+    # clearing / stopping one of them cancels nothing on the others
+    ops15 = [['clear', 's'], ['clear', 'a'], ['clear', 't'],
+             ['stopclock', 't']]
+    if thorough:
+        ops15 += [['stopclock', 's'], ['stopclock', 'a']]
+    for xo in ops15:
+        out.append(('S15', {
+            'clocks': CL3, 'funcs': {'f0': {}, 'f1': {}, 'f2': {}},
+            # (one driver thread and staggered times: three clock threads
+            # already give thousands of schedules)
+            'actors': {'main': [['sched', 's', 0.5, 'f0'],
+                                ['sched', 't', 2.0, 'f1'],
+                                ['sched', 'a', 1.5, 'f2'],
+                                ['sleep', 0.25], xo]},
+            'horizon': 3.0}))
+    # S16: etempo() while the clock sleeps (from a plain thread / from a
+    # routine on another clock); S17: the public, asynchronous stop()
+    for v in (4.0, 1.0):
+        out.append(('S16', {
+            'clocks': clocks_for('t'), 'funcs': {'f0': {}, 'f1': {}},
+            'actors': {'main': [['sched', 't', 2.0, 'f0'],
+                                ['sched', 't', 4.0, 'f1']],
+                       'X': [['sleep', 0.25], ['etempo', 't', v]]},
+            'horizon': 6.0}))
+    for oc in ('s', 'a'):
+        cl = clocks_for('t')
+        if oc == 'a':
+            cl['a'] = ['app']
+        out.append(('S16', {
+            'clocks': cl, 'funcs': {'f0': {}},
+            'routines': {'r0': [['yield', 0.25], ['etempo', 't', 8.0]]},
+            'actors': {'main': [['sched', 't', 2.0, 'f0'],
+                                ['play', 'r0', oc]]},
+            'horizon': 6.0}))
+    # (stop_all() walks a WeakSet, whose order depends on addresses: only
+    # with a single TempoClock is the execution a function of the choices)
+    for w, op in ((0.25, 'stoppub'), (0.75, 'stoppub'), (0.25, 'stopall')):
+        out.append(('S17', {
+            'clocks': clocks_for('t'), 'funcs': {'f0': {}, 'f1': {}},
+            'actors': {'main': [['sched', 't', 1.0, 'f0'],
+                                ['sched', 't', 2.0, 'f1']],
+                       'X': [['sleep', w], [op, 't']]},
+            'horizon': 4.0}))
+    out.append(('S18', {
+        'clocks': clocks_for('t'), 'funcs': {'f0': {}, 'f1': {}},
+        'actors': {'main': [['playbar', 't', 'f0']],
+                   'X': [['sleep', 0.25], ['playbar', 't', 'f1']]},
+        'horizon': 4.0}))
+    # S19: a task running on one clock's thread schedules onto the same or
+    # another clock (what an OSC responder does: the library runs it as a
+    # SystemClock task) while a plain thread schedules there too; the delay
+    # counts from the logical time of the awakened task
+    for c1 in ('s', 't', 'a'):
+        for c2 in ('s', 't', 'a'):
+            cl = dict(clocks_for(c1))
+            cl.update(clocks_for(c2))
+            d1 = 1.0 if c1 == 't' else 0.5
+            out.append(('S19', {
+                'clocks': cl,
+                'funcs': {'f0': {'does': {'0': [['sched', c2, 0.25,
+                                                 'f1']]}},
+                          'f1': {}, 'f2': {}},
+                'actors': {'main': [['sched', c1, d1, 'f0']],
+                           'X': [['sleep', 0.5], ['sched', c2, 0.25, 'f2']]},
+                'horizon': 3.0}))
+    # families whose point shows on the default schedule plus one deviation
+    # and that have many scheduling points: lower deviation bound
+    for n, p in out:
+        if n in ('S8b', 'S8c', 'S14', 'S15', 'S18', 'S19'):
+            p['cap'] = {'quick': [1, 1], 'thorough': [2, 2]}
+    return out
+
+
+def grammar2_scenarios():
+    """Second systematic family: like grammar_scenarios(), but the alphabet
+    schedules ONE shared task object g (an awakeable or a routine handed to
+    sched(); it re-schedules itself once by its return value) at two
+    different delays, next to fresh plain functions and clear()."""
+    out = []
+    for c in ('s', 't', 'a'):
+        for kind in ('awakeable', 'routine'):
+            g = 'g' if kind == 'awakeable' else 'r0'
+            alpha = [['sched', c, 0.25, g], ['sched', c, 1.0, g],
+                     ['sched', c, 0.5, None], ['clear', c]]
+            seqs = [[a] for a in alpha] + [[a, b] for a in alpha
+                                           for b in alpha]
+            for ms in seqs:
+                for xs in seqs:
+                    if not any(o[0] == 'sched' and o[3] == g
+                               for o in ms + xs):
+                        continue
+                    for lead in (0, 0.25):
+                        k = 0
+                        funcs = {}
+                        routines = {}
+                        if kind == 'awakeable':
+                            funcs['g'] = {'kind': 'awakeable',
+                                          'returns': [0.5, None]}
+                        else:
+                            routines['r0'] = [['yield', 0.5],
+                                              ['yield', 0.5]]
+                        actors = {'main': [], 'X': []}
+                        if lead:
+                            actors['X'].append(['sleep', lead])
+                        for who, ops in (('main', ms), ('X', xs)):
+                            for o in ops:
+                                o = list(o)
+                                if o[0] == 'sched' and o[3] is None:
+                                    o[3] = f'f{k}'
+                                    funcs[o[3]] = {}
+                                    k += 1
+                                actors[who].append(o)
+                        out.append(('G2', {'clocks': clocks_for(c),
+                                           'funcs': funcs,
+                                           'routines': routines,
+                                           'actors': actors,
+                                           'horizon': 5.0}))
     return out
 
 
@@ -238,7 +569,19 @@ class TempoRef:
         self.base_s, self.base_b = at, v
 
 
+SINGLE_KINDS = ('awakeable', 'funcobj', 'routine')
+
+
 def check_trace(prog, res):
+    """The oracle.  Model of what is pending: per clock queue a set of
+    entries (scheduled time, scheduling order).  An object that is ONE item
+    however often it is scheduled (awakeable, Function object, routine) has at
+    most one entry per clock: scheduling it again while it is pending moves
+    it to its new time as the most recent entry (the contract of the clocks'
+    queue, property C09, and what the non-real-time scheduler does); a plain
+    function is wrapped anew by every scheduling call, so every call makes an
+    entry of its own."""
+    from collections import Counter
     dis = []
 
     def bad(kind, exp, obs, detail=''):
@@ -248,8 +591,11 @@ def check_trace(prog, res):
         bad(res['status'], 'the execution completes', res['detail'])
         return dis
     for name, exc in res['dead']:
-        bad('clock-thread-died', 'clock threads survive task errors',
-            [name, exc])
+        # (own kind for a wait whose timeout the platform refuses, so that
+        # the known finding about it cannot hide another cause of death)
+        bad('clock-thread-died-wait-overflow' if exc.startswith(
+            'OverflowError') else 'clock-thread-died',
+            'clock threads survive task errors', [name, exc])
     for what, thread in res['lockfree']:
         bad('queue-access-without-lock', 'main lock held', [what, thread])
     for kind, d in res['finish_problems']:
@@ -264,6 +610,9 @@ def check_trace(prog, res):
     if dis:
         return dis
     funcs = dict(prog.get('funcs', {}))
+    kindof = {fid: spec.get('kind', 'func') for fid, spec in funcs.items()}
+    raise_at = {fid: set(spec.get('raises', []))
+                for fid, spec in funcs.items()}
     for rid, stmts in prog.get('routines', {}).items():
         rets = []
         for st in stmts:
@@ -272,19 +621,30 @@ def check_trace(prog, res):
             elif st[0] in ('yieldv', 'wait'):
                 rets.append(None)
             elif st[0] == 'raise':
+                raise_at[rid] = {len(rets)}
                 break
         funcs[rid] = {'returns': rets + [None]}
+        kindof[rid] = 'routine'
     clocks = prog.get('clocks', {})
     tref = {cid: TempoRef(spec[1]) for cid, spec in clocks.items()
             if spec[0] == 'tempo'}
     qkind = {}
     for cid, spec in clocks.items():
         qkind[_q(prog, cid)] = spec[0]
-    pending = {}      # queue -> {name: [prio, seq, add_phys]}
+    # queue -> {key: [prio, seq, add_phys, optional, name, adding thread]}
+    pending = {}
     wakes = {}        # name -> count
-    last_wake = {}    # name -> (queue, prio, phys)
+
+    def ghost(name):
+        # a routine that has run to its end (or failed) is awakened without
+        # any observable effect: its entries demand / constrain nothing
+        return kindof.get(name) == 'routine' and \
+            wakes.get(name, 0) >= len(funcs[name]['returns'])
     expect_add = {}   # name -> (queue, expected prio) after a numeric return
-    cleared = {}      # queue -> names snapshot at clear-begin
+    cleared = {}      # queue -> keys snapshot at clear-begin
+    cur_log = {}      # task name -> logical seconds of its latest awakening
+    inflight = {}     # caller -> [task name, queue, expected prio | None]
+    nraise = 0
     horizon = prog.get('horizon', 4.0)
     # a tempo / beats change made from a plain thread is not atomic with
     # respect to the clock thread: what happens on that clock at the very
@@ -312,37 +672,89 @@ def check_trace(prog, res):
             return phys in racy.get(self.q, ()) or \
                 (self.q in tainted and phys >= tainted[self.q])
     racy_view = {q0: _Racy(q0) for q0 in set(racy) | set(tainted)}
-    calls = {}        # task name -> (queue, expected prio) of a pending call
     actors = set(prog.get('actors', {}))
+    actor_threads = {'MainThread' if a == 'main' else a for a in actors}
+
+    def expected_prio(q0, delta, base, t0):
+        """Scheduled time a scheduling call must produce, None = not decided
+        here.  base: the caller's present (physical for a plain thread, the
+        logical time of the awakened task inside an awake call)."""
+        kind = qkind[q0]
+        if isinstance(delta, list):
+            if delta[0] == 'abs':
+                return delta[1]
+            if delta[0] == 'play':
+                # SystemClock / AppClock: play(task) = sched(0, task);
+                # TempoClock: only quant 0 ('now') is decided here, the grid
+                # arithmetic belongs to C12
+                if kind == 'tempo' and delta[1] != 0:
+                    return None
+                d = 0
+            elif delta[0] == 'defer':
+                d = delta[1] or 0
+            else:
+                return None
+        else:
+            d = delta
+        if kind == 'app':
+            return t0 + d       # AppClock: always the physical present
+        if base is None:
+            return None
+        if kind == 'tempo':
+            return tref[q0].s2b(base) + d
+        return base + d
+
     for e in res['trace']:
         k = e[0]
-        if k == 'sched-call' and e[1] in actors:
+        if k == 'sched-call':
             _, who, cid, delta, fid, t0 = e
             q0 = _q(prog, cid)
-            if isinstance(delta, list):
-                calls[fid] = (q0, delta[1])
-            elif qkind[q0] == 'tempo':
-                calls[fid] = (q0, tref[q0].s2b(t0) + delta)
-            else:
-                calls[fid] = (q0, t0 + delta)
-        if k == 'add':
-            _, q, prio, name, seq, phys = e
-            pending.setdefault(q, {})[name] = [prio, seq, phys, False]
-            want = calls.pop(name, None)
-            if phys in racy_view.get(q, ()):
+            base = t0 if who in actors else cur_log.get(who)
+            want = expected_prio(q0, delta, base, t0)
+            if t0 in racy_view.get(q0, ()):
                 want = None
-            if want is not None and prio != float('inf') and \
-                    (want[0] != q or want[1] != prio):
-                bad('scheduled-time-wrong', list(want), [q, prio],
-                    f'{name}: sched(delta) from a plain thread must be '
-                    'relative to the physical present of the call')
-            exp = expect_add.pop(name, None)
-            if exp is not None:
-                eq, eprio = exp
-                if eq != q or (eprio is not None and eprio != prio):
-                    bad('reschedule-time-wrong', [eq, eprio], [q, prio],
-                        f'{name}: numeric return must re-schedule relative '
-                        'to the scheduled time (AppClock: to the present)')
+            inflight[who] = [fid, q0, want]
+        elif k == 'sched-ret':
+            inflight.pop(e[1], None)
+        elif k == 'add':
+            _, q, prio, name, seq, phys = e[:6]
+            thread = e[6] if len(e) > 6 else None
+            owner = None
+            for who, fl in inflight.items():
+                if fl is None or fl[0] != name:
+                    continue
+                if who in actors:
+                    if thread == ('MainThread' if who == 'main' else who):
+                        owner = who
+                elif thread not in actor_threads:
+                    # a task that schedules holds the main lock for the
+                    # whole awake call: no other clock thread can insert
+                    owner = who
+            single = kindof.get(name, 'func') in SINGLE_KINDS
+            key = name if single else f'{name}#{seq}'
+            pending.setdefault(q, {})[key] = [prio, seq, phys, False, name,
+                                              thread]
+            if owner is not None:
+                _, wq, want = inflight[owner]
+                inflight[owner] = None
+                if phys in racy_view.get(q, ()):
+                    want = None
+                if want is not None and prio != float('inf') and \
+                        (wq != q or want != prio):
+                    bad('scheduled-time-wrong', [wq, want], [q, prio],
+                        f'{name}: sched(delta) must be relative to the '
+                        'physical present of a call from a plain thread, to '
+                        'the logical time of the awakened task inside an '
+                        'awake call')
+            elif thread not in actor_threads:
+                exp = expect_add.pop(name, None)
+                if exp is not None:
+                    eq, eprio = exp
+                    if eq != q or (eprio is not None and eprio != prio):
+                        bad('reschedule-time-wrong', [eq, eprio], [q, prio],
+                            f'{name}: numeric return must re-schedule '
+                            'relative to the scheduled time (AppClock: to '
+                            'the present)')
         elif k in ('wake', 'res'):
             _, name, n, phys, logical, beats, late, cname = e
             q = _q(prog, cname)
@@ -350,15 +762,30 @@ def check_trace(prog, res):
                 bad('reschedule-missing', expect_add[name], None, name)
                 expect_add.pop(name)
             pq = pending.get(q, {})
-            if name not in pq:
+            cands = [(v[0], v[1], key) for key, v in pq.items()
+                     if v[4] == name]
+            if n in raise_at.get(name, ()):
+                nraise += 1
+            if not cands:
                 bad('wake-without-pending-scheduling',
                     f'{name} not pending on {q}', e,
-                    'awakened twice, after clear/stop, or on a wrong clock')
+                    'awakened twice, after clear/stop, at the old time of a '
+                    'task that was scheduled again, or on a wrong clock')
                 continue
-            prio, seq, addphys, _opt = pq.pop(name)
-            for other, (p2, s2, _, opt2) in pq.items():
-                if opt2:
+            prio, seq, key = min(cands)
+            _, _, addphys, _opt, _, _ = pq.pop(key)
+            for other, (p2, s2, a2, opt2, n2, th2) in pq.items():
+                if opt2 or ghost(n2):
                     continue    # may have been removed by a racing clear()
+                if qkind[q] == 'app' and a2 == phys and p2 < a2 and \
+                        th2 not in actor_threads:
+                    # AppClock awakens what is due in batches (first pops
+                    # everything that is due, then awakens it, so that
+                    # nothing scheduled as a result is awakened before
+                    # control returns): an entry inserted by a task of the batch
+                    # with a time that is already past on arrival (negative
+                    # delta) waits for the next tick, which follows at once
+                    continue
                 if (p2, s2) < (prio, seq):
                     bad('wake-out-of-order', [other, p2, s2],
                         [name, prio, seq],
@@ -382,13 +809,19 @@ def check_trace(prog, res):
                 bad('logical-time-wrong', prio, logical, name)
             if kind == 'tempo' and beats != prio and timing:
                 bad('logical-beats-wrong', prio, beats, name)
+            # logical time seen by scheduling calls made inside this awake
+            # call (AppClock has no logical time: not decided)
+            cur_log[name] = due if (kind != 'app' and timing) else None
             wakes[name] = wakes.get(name, 0) + 1
             spec = funcs.get(name, {})
             rets = spec.get('returns', [None])
             r = rets[n] if n < len(rets) else None
-            if n in spec.get('raises', []):
+            if n in raise_at.get(name, ()):
                 r = None
-            if isinstance(r, (int, float)) and not isinstance(r, bool):
+            if isinstance(r, (int, float)) and not isinstance(r, bool) \
+                    and r != INF:
+                # (inf = never again: whether an entry that is never due
+                # is kept in the queue is not observable)
                 expect_add[name] = (q, (phys if kind == 'app' else prio) + r)
                 if not timing:
                     expect_add[name] = (q, None)
@@ -423,11 +856,18 @@ def check_trace(prog, res):
             bad('api-call-raises', 'no exception', e[1:], '')
     for name, exp in expect_add.items():
         bad('reschedule-missing', exp, None, name)
+    # "an exception raised by one task is logged": one record with the
+    # exception attached per raising awakening (any level, any logger of
+    # the library)
+    nlogged = sum(1 for e in res['trace'] if e[0] == 'logged' and e[3])
+    if nlogged < nraise and ['run2'] in res['trace']:
+        bad('task-error-not-logged', f'>= {nraise} log records with the '
+            'exception', nlogged, '')
     # missed wake-ups: still pending in the model though due before horizon
     late = res['late_total']
     for q, pq in pending.items():
-        for name, (prio, seq, addphys, opt) in pq.items():
-            if opt:
+        for key, (prio, seq, addphys, opt, name, _) in pq.items():
+            if opt or ghost(name):
                 continue
             due = tref[q].b2s(prio) if qkind[q] == 'tempo' else prio
             if max(due, addphys) + late < horizon:
@@ -441,11 +881,17 @@ def check_trace(prog, res):
             # a stopped clock fires nothing any more (checked through the
             # wake events); what its dead queue still holds is not observable
             continue
-        must = sorted(n for n, v in pending.get(q, {}).items() if not v[3])
-        may = sorted(pending.get(q, {}))
-        real = sorted(n for _, n in lst)
-        if not (set(must) <= set(real) <= set(may)):
-            bad('pending-set-differs', {'must': must, 'may': may}, real, q)
+        pq = pending.get(q, {})
+        must = Counter(v[4] for v in pq.values()
+                       if not v[3] and not ghost(v[4]))
+        may = Counter(v[4] for v in pq.values())
+        real = Counter(n for _, n in lst)
+        if any(real[n] < c for n, c in must.items()) or \
+                any(may[n] < c for n, c in real.items()):
+            bad('pending-set-differs',
+                {'must': sorted(must.elements()),
+                 'may': sorted(may.elements())},
+                sorted(real.elements()), q)
     return dis
 
 
@@ -460,12 +906,239 @@ def _q(prog, cid):
 # ---------------------------------------------------------------------------
 # Worker side
 # ---------------------------------------------------------------------------
+#
+# The shared interpreter mc/rtprog.py is extended *here* (it may not be
+# edited): while one execution runs, a subclass is put in place of
+# rtprog.Run (the same device as in c05 / c10).  Additions:
+#
+# funcs spec
+#   'kind': 'func'      plain function; every sched() call wraps it in a NEW
+#                       Function object = a new item each time (default)
+#           'awakeable' one object with __awake__ only
+#           'funcobj'   one sc3 Function object made once and scheduled as is
+#           'thunk'     zero-argument callable for defer(); 'clock': cid says
+#                       on which clock it is deferred
+#   'does': {'<k>': [stmt, ...]}  statements executed by the k-th call before
+#                       it returns / raises (a task that schedules: what an
+#                       OSC responder running as a SystemClock task does)
+# ops
+#   ['sched_abs', cid, t, rid]    also with a routine
+#   ['cplay', cid, name, quant]   clock.play(task, quant)
+#   ['playbar', cid, name]        TempoClock.play_next_bar(task)
+#   ['defer', cid|None, delta|None, fid]   sc3.base.clock.defer(...)
+#   ['etempo', cid, v]            TempoClock.etempo(v)
+#   ['stoppub', cid]              TempoClock.stop() (public, asynchronous)
+#   ['stopall']                   TempoClock.stop_all()
+# events
+#   'add' carries the name of the thread that made the insertion (7th field)
+#   ['logged', logger, level, has_exc_info, thread]  every record of the
+#       library's loggers
+#   ['run2'] marker: the extended interpreter was in place
+
+_NEW_OPS = ('cplay', 'playbar', 'defer', 'etempo', 'stoppub', 'stopall')
+_LOG = {}
+
+
+def _run2_class():
+    import logging
+    from mc import rtprog, seams, vthreading as vt
+    base = rtprog.Run
+
+    class Run2(base):
+        def setup(self):
+            base.setup(self)
+            self.ev('run2')
+            run = self
+
+            def on_add(q, prio, task):
+                name = run.names.get(id(task))
+                if name is None:
+                    f = getattr(task, 'func', None)
+                    name = run.names.get(id(f))
+                    if name is None and getattr(f, '__closure__', None):
+                        # defer() wraps the callable in a local function
+                        for cell in f.__closure__:
+                            name = run.names.get(id(cell.cell_contents))
+                            if name is not None:
+                                break
+                    if name is None:
+                        name = repr(task)
+                run.ev('add', getattr(q, '_qname', '?'), prio, name,
+                       run.addseq, run.now(), vt.SCHED.current.name)
+                run.addseq += 1
+            seams.on_add = on_add
+
+            class Cap(logging.Handler):
+                def emit(self, record):
+                    run.ev('logged', record.name, record.levelname,
+                           bool(record.exc_info), vt.SCHED.current.name)
+            lg = logging.getLogger('sc3')
+            _LOG['state'] = (lg, lg.level, lg.propagate, Cap())
+            lg.setLevel(logging.DEBUG)
+            lg.propagate = False
+            lg.addHandler(_LOG['state'][3])
+
+        def _func(self, fid, spec):
+            run = self
+            kind = spec.get('kind', 'func')
+            returns = spec.get('returns', [None])
+            raises = set(spec.get('raises', []))
+            does = spec.get('does', {})
+
+            def call(clock):
+                k = run.calls.get(fid, 0)
+                run.calls[fid] = k + 1
+                if clock is None:       # thunk: defer() passes nothing
+                    clock = run.clocks[spec['clock']]
+                run.ev('wake', fid, k, run.now(), clock.seconds,
+                       clock.beats, run.late(), run.clockname(clock))
+                for st in does.get(str(k), []):
+                    run.do(st, fid, clock)
+                if k in raises:
+                    raise ValueError(f'task {fid} call {k}')
+                r = returns[k] if k < len(returns) else None
+                if spec.get('numtype') and isinstance(r, (int, float)):
+                    r = (rtprog._Dur(r) if isinstance(r, float)
+                         else rtprog._Count(r))
+                return r
+
+            if kind == 'awakeable':
+                class Awakeable:
+                    def __awake__(self, clock):
+                        return call(clock)
+                return Awakeable()
+            if kind == 'thunk':
+                def th():
+                    return call(None)
+                th.__qualname__ = fid
+                return th
+
+            def f(_, clock):
+                return call(clock)
+            f.__qualname__ = fid
+            if kind == 'funcobj':
+                from sc3.base.functions import Function
+                obj = Function(f)
+                self.names[id(f)] = fid
+                return obj
+            return f
+
+        def _task(self, name):
+            return self.funcs[name] if name in self.funcs \
+                else self.routines[name]
+
+        def do(self, st, who, clock=None):
+            op = st[0]
+            if not (op in _NEW_OPS or
+                    (op == 'sched_abs' and st[3] in self.routines)):
+                if op in ('tempo', 'beats') and who in self.funcs:
+                    raise ValueError('tempo/beats from a function task: '
+                                     'not modelled')
+                return base.do(self, st, who, clock)
+            from sc3.base import clock as clk
+            S = vt.SCHED
+            try:
+                if op == 'sched_abs':
+                    self.ev('sched-call', who, st[1], ['abs', st[2]], st[3],
+                            self.now())
+                    self.clocks[st[1]].sched_abs(st[2], self.routines[st[3]])
+                    self.ev('sched-ret', who, st[1], st[3], self.now())
+                elif op == 'cplay':
+                    q = st[3] if len(st) > 3 else None
+                    self.ev('sched-call', who, st[1], ['play', q], st[2],
+                            self.now())
+                    self.clocks[st[1]].play(self._task(st[2]), q)
+                    self.ev('sched-ret', who, st[1], st[2], self.now())
+                elif op == 'playbar':
+                    self.ev('sched-call', who, st[1], ['bar'], st[2],
+                            self.now())
+                    self.clocks[st[1]].play_next_bar(self._task(st[2]))
+                    self.ev('sched-ret', who, st[1], st[2], self.now())
+                elif op == 'defer':
+                    cid = st[1]
+                    if cid is None:     # the documented default: AppClock
+                        cid = [c for c, o in self.clocks.items()
+                               if o is clk.AppClock][0]
+                    self.ev('sched-call', who, cid, ['defer', st[2]], st[3],
+                            self.now())
+                    clk.defer(self.funcs[st[3]], st[2],
+                              None if st[1] is None else self.clocks[st[1]])
+                    self.ev('sched-ret', who, cid, st[3], self.now())
+                elif op == 'etempo':
+                    # always at the physical present
+                    self.ev('tempo-set', who, 'tempo', st[1], st[2],
+                            self.now(), self.now())
+                    self.clocks[st[1]].etempo(st[2])
+                elif op in ('stoppub', 'stopall'):
+                    cids = [st[1]] if op == 'stoppub' else \
+                        [c for c, o in self.clocks.items()
+                         if isinstance(o, clk.TempoClock)]
+                    for c in cids:
+                        self.ev('stop-begin', who, c, self.now())
+                    if op == 'stoppub':
+                        self.clocks[st[1]].stop()
+                    else:
+                        clk.TempoClock.stop_all()
+                    # stop() only starts a thread that stops the clock: let
+                    # it finish (no time passes)
+                    S.idle()
+                    for c in cids:
+                        self.ev('stop-end', who, c, self.now())
+            except Exception as e:
+                if type(e).__name__ in ('Abort',):
+                    raise
+                self.ev('raises', who, st, type(e).__name__, str(e)[:200])
+                if who in self.routines:
+                    raise
+
+    return Run2
+
+
+def run_rt2(prog, prefix, lateness_menu=None):
+    """rtprog.run_rt with the extended interpreter in place."""
+    import threading as _real
+    from mc import rtprog, vthreading as vt
+    old = rtprog.Run
+    rtprog.Run = _run2_class()
+    # CPython's Condition.wait / Lock.acquire refuse a timeout beyond
+    # threading.TIMEOUT_MAX (float('inf') included) with OverflowError; the
+    # virtual Condition would simply wait for ever.  Made faithful here
+    # (mc/vthreading.py is shared and may not be edited).
+    vwait = vt.VCondition.wait
+
+    def wait(self, timeout=None):
+        if timeout is not None and timeout > _real.TIMEOUT_MAX:
+            raise OverflowError('timestamp out of range for platform time_t')
+        return vwait(self, timeout)
+    vt.VCondition.wait = wait
+    try:
+        pts, ch, res = rtprog.run_rt(prog, prefix,
+                                     lateness_menu=lateness_menu)
+    finally:
+        vt.VCondition.wait = vwait
+        rtprog.Run = old
+        st = _LOG.pop('state', None)
+        if st is not None:
+            lg, level, prop, h = st
+            lg.removeHandler(h)
+            lg.setLevel(level)
+            lg.propagate = prop
+    for e in res['trace']:
+        if e[0] == 'raises':    # no addresses in observations
+            e[-1] = re.sub(r'0x[0-9a-f]+', '0x?', e[-1])
+    res['dead'] = [[n, re.sub(r'0x[0-9a-f]+', '0x?', x)]
+                   for n, x in res['dead']]
+    if res['status'] == 'ok' and ['run2'] not in res['trace']:
+        raise RuntimeError('mc.rtprog.run_rt no longer instantiates '
+                           'rtprog.Run: the C08 interpreter extension is '
+                           'not in place')
+    return pts, ch, res
+
 
 def run_case(case):
-    from mc import rtprog
     prog = case['prog']
-    pts, ch, res = rtprog.run_rt(prog, case['choices'],
-                                 lateness_menu=case.get('menu'))
+    pts, ch, res = run_rt2(prog, case['choices'],
+                           lateness_menu=case.get('menu'))
     return pts, ch, res
 
 
@@ -478,7 +1151,7 @@ def work(job):
     npts = [0]
 
     def run(prefix):
-        return rtprog.run_rt(prog, prefix)
+        return run_rt2(prog, prefix)
 
     def on_result(choices, points, res):
         from mc.engines.schedx import cost_of
@@ -542,7 +1215,11 @@ def _same_instant(res):
 
 
 def check_trace_full(prog, res):
-    return check_trace(prog, res)
+    dis = check_trace(prog, res)
+    tag = prog.get('tag')
+    if tag:
+        dis = [(f'{k}@{tag}', e, o, d) for k, e, o, d in dis]
+    return dis
 
 
 def replay(job):
@@ -557,6 +1234,31 @@ def replay(job):
             'status': res['status']}
 
 
+def _returns_inf(v, **_):
+    """The program has a task that returns / a routine that yields inf."""
+    prog = v['case']['prog']
+    for spec in prog.get('funcs', {}).values():
+        if any(r == INF for r in spec.get('returns', [])
+               if isinstance(r, (int, float))):
+            return True
+    for stmts in prog.get('routines', {}).values():
+        if any(st[0] == 'yield' and st[1] == INF for st in stmts):
+            return True
+    return False
+
+
+def _app_batch_resched(v, **_):
+    """AppClock program in which a task re-schedules another task object
+    that is due in the same tick and comes after it in the queue."""
+    prog = v['case']['prog']
+    return prog.get('tag') == 'app-batch-resched' and \
+        any(spec[0] == 'app' for spec in prog.get('clocks', {}).values())
+
+
+PREDICATES = {'task_returns_inf': _returns_inf,
+              'app_batch_resched': _app_batch_resched}
+
+
 def main(ctx):
     ctx.rule = (
         'E3: for each scenario program (2-3 threads issuing sched/clear/stop/'
@@ -567,7 +1269,20 @@ def main(ctx):
         'exactly-once / not-early / not-late / ordered / survives-errors / '
         'clear-cancels oracle. Distinct = different choice sequence. '
         'Non-trivial = at least one deviation, or two insertions with the '
-        'same due time on one clock.')
+        'same due time on one clock. Audit families (S8-S20, Sinf2, grammar '
+        'family 2): one task object (awakeable / Function object / routine '
+        'handed to sched()) scheduled again while pending, from another '
+        'thread, from its own awake call, or on two clocks (model: one entry '
+        'per clock and object, a re-scheduling moves it; a plain function is '
+        'a new entry per call); return values 0 / negative / int / inf / not '
+        'a number; negative delays and past absolute times; two TempoClocks '
+        'and SystemClock+AppClock+TempoClock side by side (clear / stop / '
+        'tempo change of one leaves the others alone); etempo(), the public '
+        'stop() / stop_all(), clock.play(), play_next_bar() and defer() as '
+        'entry points; function tasks that schedule onto the same / another '
+        'clock (delay counted from the logical time of the awakened task); '
+        'raising routines and more subsets of raising tasks, each raising '
+        'awakening must leave a log record carrying the exception.')
     ctx.assumptions += [
         'interleavings at synchronisation operations only (lock release, '
         'blocking, thread start/exit, timed-wait expiry); unsynchronised '
@@ -576,18 +1291,43 @@ def main(ctx):
         'virtual time: executing code takes no time; a timed wait fires at '
         'its deadline plus the chosen lateness',
         'clock threads re-created per execution by a mirror of the '
-        "library's init_func (mc/seams.py)"]
+        "library's init_func (mc/seams.py)",
+        'Condition.wait with a timeout beyond threading.TIMEOUT_MAX raises '
+        'OverflowError as in CPython (made faithful inside this check)',
+        'times, delays and tempi are dyadic rationals: virtual time is '
+        'exact; non-dyadic values are not explored (a busy re-check loop of '
+        'the clock thread takes no virtual time)']
     if ctx.tier == 'quick':
         bounds = [(2, 1)]
     else:
         bounds = [(3, 2)]
     scs = scenarios(ctx.tier)
+    naudit = len(audit_scenarios(ctx.tier))
+    sharp, audit = scs[:len(scs) - naudit], scs[len(scs) - naudit:]
     for max_pre, max_late in bounds:
         jobs = [{'name': n, 'prog': p, 'max_pre': max_pre,
-                 'max_late': max_late} for n, p in scs]
+                 'max_late': max_late} for n, p in sharp]
         progenum.run(ctx, MODNAME, 'work', jobs, mode='rt', maxtasks=1,
                      bound=f'<= {max_pre} preemptions, <= {max_late} '
                            'lateness deviations')
+        # the audit families: same bound unless the program carries a cap
+        # (families whose point is visible on few deviations and that have
+        # three or more clock threads); several programs per process
+        jobs = []
+        for n, p in audit:
+            cp, cl_ = p.get('cap', {}).get(ctx.tier, (max_pre, max_late))
+            jobs.append({'name': n, 'prog': p, 'max_pre': min(cp, max_pre),
+                         'max_late': min(cl_, max_late)})
+        nb = 48
+        progenum.run(ctx, MODNAME, 'work_batch',
+                     [{'jobs': jobs[i::nb]} for i in range(nb)
+                      if jobs[i::nb]],
+                     mode='rt', maxtasks=1,
+                     bound=f'audit families, <= {max_pre} preemptions, <= '
+                           f'{max_late} lateness deviations (capped '
+                           'programs: see cap in the program)')
+        ctx.extra['capped_programs'] = sum(1 for _, p in audit
+                                           if 'cap' in p)
     # systematic grammar family: thorough = all programs under (1, 1);
     # quick = a seed-selected 1/16 slice under (1, 0)
     gs = grammar_scenarios()
@@ -607,5 +1347,27 @@ def main(ctx):
                  [{'jobs': jobs[i::64]} for i in range(64) if jobs[i::64]],
                  mode='rt', maxtasks=1, bound=label)
     ctx.extra['grammar_programs'] = len(part)
+    # second grammar family (one shared task object scheduled repeatedly):
+    # thorough = all programs under (1, 1); quick = a seed-selected 1/32
+    # slice under (1, 0)
+    g2 = grammar2_scenarios()
+    if ctx.tier == 'quick':
+        k2 = core.pick_slice(ctx.seed, 32)
+        part2 = g2[k2::32]
+        label2 = ('grammar family 2 (shared task object), 1/32 slice chosen '
+                  'by seed (not exhaustive), <= 1 preemption')
+    else:
+        part2 = g2
+        label2 = ('grammar family 2 (shared task object, all programs), '
+                  '<= 1 preemption, <= 1 late (routine variant: 0 late)')
+    # (the routine variant differs from the awakeable one only in the awake
+    # protocol, not in the queue path: no lateness deviation for it)
+    jobs = [{'name': n, 'prog': p, 'max_pre': gb[0],
+             'max_late': 0 if p.get('routines') else gb[1]}
+            for n, p in part2]
+    progenum.run(ctx, MODNAME, 'work_batch',
+                 [{'jobs': jobs[i::64]} for i in range(64) if jobs[i::64]],
+                 mode='rt', maxtasks=1, bound=label2)
+    ctx.extra['grammar2_programs'] = len(part2)
     ctx.extra['scenarios'] = len(scs)
     ctx.extra['bounds_completed'] = [list(b) for b in bounds]
